@@ -164,13 +164,21 @@ func RunJob(j Job) (res *Result) {
 		res.Inconclusive = c.Inconclusive
 	}
 	res.Extra = c.Extra
+	// keep at most 25 records per signature (rule, relation): a known finding that fires at every
+	// block must not crowd a different violation out of the record
+	perSig := map[string]int{}
+	keep := func(v chain.Violation) {
+		res.NViolations++
+		k := v.Rule + "|" + v.Relation
+		perSig[k]++
+		if perSig[k] <= 25 && len(res.Violations) < 1000 {
+			res.Violations = append(res.Violations, v)
+		}
+	}
 	for _, w := range c.Worlds {
 		for _, v := range w.Violations {
 			if v.Property == j.Prop {
-				res.NViolations++
-				if len(res.Violations) < 300 {
-					res.Violations = append(res.Violations, v)
-				}
+				keep(v)
 			}
 		}
 		res.Blocks += w.Height
@@ -191,10 +199,7 @@ func RunJob(j Job) (res *Result) {
 	}
 	for _, v := range c.ExtraViol {
 		if v.Property == j.Prop {
-			res.NViolations++
-			if len(res.Violations) < 300 {
-				res.Violations = append(res.Violations, v)
-			}
+			keep(v)
 		}
 	}
 	for _, m := range c.Mons {
